@@ -1,8 +1,8 @@
-"""C02 -- confidence never overstates similarity.  M: EditLemma (Cost of a valid script >= Levenshtein); V2Score (diffRange / scoreDiffs as built: RangeSpells, ScoreRange).  G: every small edit script through the real scoring functions.  T: every score() call recorded through the hook; TLC checks the script is valid, dist = Cost, spans/lines follow."""
+"""C02 -- confidence never overstates similarity.  M: EditLemma (Cost of a valid script >= Levenshtein); V2Score (diffRange / scoreDiffs as built: RangeSpells, ScoreRange).  G: every small edit script through the real scoring functions; V2Runes: every boundary id through idToRune / string([]rune) / go-diff / runeToID.  T: every score() call recorded through the hook; TLC checks the script is valid, dist = Cost, spans/lines follow."""
 import time
 from lib import vlib
 from lib.vlib import tlc, tlc_require_ok
-from checks.v2common import Acc, trace_leg, cfg_text, score_legs
+from checks.v2common import Acc, trace_leg, cfg_text, score_legs, runes_legs
 PID = "C02"
 def run():
     t0 = time.time(); v = vlib.Verdict(PID); acc = Acc()
@@ -10,6 +10,7 @@ def run():
     r = tlc_require_ok(tlc("EditLemma", "EditLemma.cfg", timeout=1500, files={"EditLemma.cfg": text}), "EditLemma")
     acc.add_tlc(r, "EditLemma.cfg")
     score_legs(v, acc, 4 if vlib.TIER == "thorough" else 3)
+    runes_legs(v, acc)                                   # the id <-> rune channel to go-diff at every boundary of the encoding
     recs, lines = trace_leg(v, acc, "c02", [PID])
     sc = [r for r in lines if r.get("ev") == "score"]
     acc.nontrivial = len({(r["in"], r["doc"]) for r in sc if r["dist"] > 0})
